@@ -64,45 +64,35 @@ impl Remover {
         // PendingMarker  x------------x   |    x------------x
         // ---------------------------------------------------------
         let mut merged_ranges = Vec::new();
-        let mut range_cursor = 0;
+        let mut pending_iter = ranges_pending.into_iter().peekable();
         for (range, idx) in ranges {
-            let item = {
-                // Pop item from pending_ranges
-                if range_cursor < ranges_pending.len() {
-                    let (pending_range, idx) = &ranges_pending[range_cursor];
-
-                    if pending_range.start < range.end {
-                        range_cursor += 1;
-
-                        let can_squash = range.contains(&pending_range.start)
-                            && range.contains(&pending_range.end);
-                        if can_squash {
-                            None
-                        } else {
-                            Some((pending_range.clone(), *idx))
-                        }
-                    } else {
-                        None
-                    }
-                } else {
-                    None
+            // Take every pending range that starts before the end of this range:
+            // it is listed before the range, dropped (inside the range), or listed after it.
+            let mut pending_after = Vec::new();
+            while let Some((pending_range, _)) = pending_iter.peek() {
+                if pending_range.start >= range.end {
+                    break;
                 }
-            };
 
-            if let Some(item) = item {
-                merged_ranges.push((item, false));
+                let (pending_range, pending_idx) = pending_iter.next().unwrap();
+                let can_squash =
+                    range.contains(&pending_range.start) && range.contains(&pending_range.end);
+                if can_squash {
+                    continue;
+                }
+
+                if pending_range.start < range.start {
+                    merged_ranges.push(((pending_range, pending_idx), false));
+                } else {
+                    pending_after.push(((pending_range, pending_idx), false));
+                }
             }
 
-            merged_ranges.push(((range.clone(), idx), true));
+            merged_ranges.push(((range, idx), true));
+            merged_ranges.extend(pending_after);
         }
 
-        if range_cursor < ranges_pending.len() {
-            merged_ranges.extend(
-                ranges_pending[range_cursor..ranges_pending.len()]
-                    .iter()
-                    .map(|v| (v.clone(), false)),
-            );
-        }
+        merged_ranges.extend(pending_iter.map(|v| (v, false)));
 
         merged_ranges
     }
